@@ -86,7 +86,14 @@ Inductive op :=
 | OSPtr (h i : Z) | OHasPtr (h i : Z) | OUint (h off n : Z) | OBit (h n : Z)
 | OLStruct (h i : Z) | OPLAt (h i : Z) | OUintAt (h i n : Z) | OBitAt (h i : Z)
 | OText (h : Z) | OData (h : Z) | OInfo (h : Z) | ORLimit
-| OWalk (h dcap pcap fuel : Z).
+| OWalk (h dcap pcap fuel : Z)
+(* Message.Reset(arena) with an arena holding the same segment bytes (a message value reused
+   for the next message: Message.Reset, Decoder.ReuseBuffer): every pointer obtained so far is
+   invalidated (the handle pool is emptied) and the traversal budget is re-armed by
+   Message.initReadLimit: the configured TraverseLimit, or the 64 MiB default when it is 0.
+   [fixed] = false is the seeded variant that re-arms with the default whatever was configured.
+   The observation is the budget after the reset. *)
+| OReset (fixed : bool).
 
 Inductive oval :=
 | VPtr (r : res Ptr)
@@ -101,6 +108,9 @@ Definition handle (st : rstate) (h : Z) : Ptr := nth (Z.to_nat h) (rs_handles st
 
 Definition push (st : rstate) (r : res Ptr) (rl : Z) : rstate :=
   mkRS (rs_handles st ++ [match r with Ok p => p | _ => nullPtr end]) rl.
+
+Definition reset_limit (fixed : bool) (c : config) : Z :=
+  if fixed then init_rlimit c else defaultTraverseLimit.
 
 Definition step (c : config) (fx : fixes) (m : segs) (st : rstate) (o : op) : rstate * oval :=
   match o with
@@ -121,6 +131,7 @@ Definition step (c : config) (fx : fixes) (m : segs) (st : rstate) (o : op) : rs
   | OWalk h dcap pcap fuel =>
     let '(t, rl) := walk c fx m dcap pcap (Z.to_nat fuel) (rs_rl st) (Ok (handle st h)) in
     (mkRS (rs_handles st) rl, VTree t rl)
+  | OReset fixed => (mkRS [] (reset_limit fixed c), VNum (Ok (reset_limit fixed c)))
   end.
 
 Fixpoint run (c : config) (fx : fixes) (m : segs) (st : rstate) (ops : list op) : rstate * list oval :=
